@@ -16,10 +16,13 @@ ASSUMPTIONS = [
 RULE = ('same history generator as C02; after the constructor and after '
         'every op, for every leaf and each of its four edges the reported '
         'neighbour list is compared with the leaves sharing a piece of '
+        'positive length of that edge; a client op extends the lists it '
+        'was handed (they are the client\'s to keep); '
         'positive length of that edge (seam identified when glued); '
         'non-trivial = >= 1 op; distinct = distinct (config, op list)')
 
 W = {
+    'client_patch': 0.8,
     'bisect': 10,
     'uniform': 0.3,
     'uniform_space': 0.3,
